@@ -187,24 +187,45 @@ fn vp_native_chunked_hostile_inputs_terminate() {
         for w in &frontier { for &c in alphabet.iter() { let mut v = w.clone(); v.push(c); next.push(v); } }
         for wire in &next {
             let mut r = reader(wire, 2);
-            let mut reads = 0;
-            loop {
-                let mut b = [0u8; 3];
-                reads += 1;
-                match r.read(&mut b) { Ok(0) | Err(_) => break, Ok(_) => {} }
-                assert!(reads < 100, "too many reads for {:?}", wire);
-            }
+            let (got, end) = drain(&mut r, &[3], 100);
+            let (want, clean) = fut(wire);
+            assert!(want.starts_with(&got), "delivered bytes are not a prefix of what {:?} frames", wire);
+            assert!(end.is_ok() == clean && (!clean || got == want), "{:?}: ended {:?}, the spec says clean = {}", wire, end, clean);
             cases += 1;
         }
         frontier = next;
     }
-    for big in ["ffffffffffffffff\r\nabc", "10000000000000000\r\nabc", "7fffffff\r\nabc", "8000000000000000\r\n", "FFFFFFFFFFFFFFF0\r\nx"] {
-        let wire = big.as_bytes();
-        let mut r = reader(wire, 64);
-        let mut b = [0u8; 16];
-        for _ in 0..8 { if let Ok(0) | Err(_) = r.read(&mut b) { break; } }
+    // every enumerated wire also agrees with the spec `fut`: delivered bytes are a prefix of what the wire frames, Ok only when it ends cleanly
+    // (checked on the size-line edge cases below, where hostile numbers and endless lines live)
+    let long_ext = |n: usize| -> Vec<u8> { let mut w = b"5;".to_vec(); w.extend(std::iter::repeat(b'a').take(n)); w };
+    let mut specials: Vec<Vec<u8>> = vec![
+        b"ffffffffffffffff\r\nabc".to_vec(), b"10000000000000000\r\nabc".to_vec(), b"7fffffff\r\nabc".to_vec(), b"8000000000000000\r\n".to_vec(), b"FFFFFFFFFFFFFFF0\r\nx".to_vec(),
+        // 17 and more hex digits: the value does not fit usize -> malformed, whatever the low digits say
+        b"10000000000000004\r\nwiki\r\n0\r\n\r\n".to_vec(), b"10000000000000000\r\n\r\n".to_vec(), b"100000000000000000004\r\nwiki\r\n0\r\n\r\n".to_vec(),
+        b"f0000000000000004\r\nwiki\r\n0\r\n\r\n".to_vec(),
+        // zero-padded sizes are fine
+        b"00000000000000004\r\nwiki\r\n0\r\n\r\n".to_vec(), b"0000000000000000000000004\r\nwiki\r\n00000000000000000000\r\n\r\n".to_vec(),
+        // signs, blanks, prefixes
+        b"+4\r\nwiki\r\n0\r\n\r\n".to_vec(), b"-4\r\nwiki\r\n0\r\n\r\n".to_vec(), b"0x4\r\nwiki\r\n0\r\n\r\n".to_vec(), b" 4 \r\nwiki\r\n0\r\n\r\n".to_vec(), b"4 ;x\r\nwiki\r\n0\r\n\r\n".to_vec(),
+        // chunk extensions: within the 128-byte line limit, at it, beyond it, and endless
+        { let mut w = long_ext(100); w.extend_from_slice(b"\r\nhello\r\n0\r\n\r\n"); w }, { let mut w = long_ext(124); w.extend_from_slice(b"\r\nhello\r\n0\r\n\r\n"); w },
+        { let mut w = long_ext(125); w.extend_from_slice(b"\r\nhello\r\n0\r\n\r\n"); w }, { let mut w = long_ext(126); w.extend_from_slice(b"\r\nhello\r\n0\r\n\r\n"); w },
+        { let mut w = long_ext(200); w.extend_from_slice(b"\r\nhello\r\n0\r\n\r\n"); w }, long_ext(200), long_ext(70_000), long_ext(3_000_000),
+    ];
+    specials.push({ let mut w = vec![b'0'; 126]; w.extend_from_slice(b"\r\n\r\n"); w });
+    specials.push({ let mut w = vec![b'0'; 127]; w.extend_from_slice(b"\r\n\r\n"); w });
+    for wire in &specials { for seg in [1usize, 64, 100_000] {
+        let (want, clean) = fut(wire);
+        let mut r = reader(wire, seg);
+        let (got, end) = drain(&mut r, &[16, 3, 70_000], 400);
+        assert!(want.starts_with(&got), "delivered bytes are not a prefix of what the wire frames: {:?}...", &wire[..wire.len().min(40)]);
+        if clean { assert!(end.is_ok() && got == want, "a well-formed body must be delivered in full: {:?}... -> {:?}", &wire[..wire.len().min(40)], end); }
+        else { assert!(end.is_err(), "malformed or truncated body ended with Ok: {:?}... ({} bytes delivered)", &wire[..wire.len().min(40)], got.len()); }
+        // bounded input: a size line without end is given up after the line limit plus what the buffers read ahead
+        let used = r.inner.get_ref().pos;
+        if !clean && size_line(wire).is_none() { assert!(used <= 128 + 7 + seg, "{} bytes of an endless chunk-size line were consumed (segments of {})", used, seg); }
         cases += 1;
-    }
+    } }
     println!("VP-NATIVE chunked_hostile_inputs_terminate cases={}", cases);
 }
 
